@@ -23,6 +23,7 @@ type rdCase struct {
 	Ind2   string `json:"indent2"` // indentation configured for the OTHER encoder (JSONIndent vs XMLIndent)
 	Pos    string `json:"pos"`
 	VSeed  int64  `json:"vseed,omitempty"`
+	Sub    int    `json:"sub,omitempty"` // 1: the handler serves a sub-request (which renders too) through the same Flame first
 }
 
 type xmlItem struct {
@@ -159,10 +160,22 @@ func rdReplay(raw json.RawMessage, idx int, tr *traceWriter) {
 		doRender = func(r flamego.Render) { r.PlainText(c.Status, s) }
 		check = func(body []byte) { roundtrip = string(body) == s; eqStd = roundtrip }
 	}
-	user := func(r flamego.Render) { resolved = true; doRender(r) }
+	if c.Sub == 0 {
+		c.Sub = 2 - int(c.VSeed%2) // 1 or 2 (2 = no sub-request)
+	}
+	user := func(r flamego.Render) {
+		resolved = true
+		if c.Sub == 1 {
+			// another request passes the same Renderer middleware and renders, before this handler does
+			sr, _ := http.NewRequest("GET", "/sub", nil)
+			f.ServeHTTP(&rdSpy{hdr: http.Header{}}, sr)
+		}
+		doRender(r)
+	}
 	pad := func(c flamego.Context) {}
 	if c.Pos == "after" {
 		f.Use(flamego.Renderer(opt), pad)
+		f.Get("/sub", func(r flamego.Render) { r.PlainText(203, "sub-request") })
 		f.Get("/", pad, user)
 	} else {
 		f.Use(user, flamego.Renderer(opt))
